@@ -335,6 +335,51 @@ def _under_not(root: ast.AST, node: ast.AST) -> bool:
     return False
 
 
+# ---------------------------------------------------------------------------------- CONDITIONS-NOT-DROPPED
+def rule_conditions_not_dropped(db: ProgramDB) -> List[Instance]:
+    """an()/the()/infer() take a description or a variable plus conditions.  Every case of the dispatcher either hands the conditions on
+    (`*properties` reaches the description it builds), or is taken only when there are none, or refuses them: a case that builds the
+    quantifier from its first argument alone answers for fewer conditions than were written - an(entity(x, c1), c2) yields objects for
+    which c2 does not hold."""
+    out = []
+    fn = db.fn("entity:select_one_or_select_many_or_infer")
+    va = fn.node.args.vararg.arg if fn.node.args.vararg else None
+    if va is None:
+        raise AnalysisError("select_one_or_select_many_or_infer: no *conditions parameter")
+    qp = fn.positional_params[0]
+    n = 0
+    for a in own_nodes(fn.node):
+        if not (isinstance(a, ast.Assign) and isinstance(a.value, (ast.Call, ast.IfExp, ast.Name))):
+            continue
+        builds = [c for c in ast.walk(a.value) if isinstance(c, ast.Call) and isinstance(c.func, ast.Name) and c.func.id == qp]
+        if not builds:
+            continue
+        n += 1
+        from ..boolexpr import guards_of
+        g = guards_of(a, fn.node.body) or []
+        uses = any(isinstance(x, ast.Name) and x.id == va for x in ast.walk(a.value))
+        none_given = any(((isinstance(t, ast.UnaryOp) and isinstance(t.op, ast.Not) and unparse(t.operand) == va) and pol) or (unparse(t) == va and not pol)
+                         or any(isinstance(y, ast.UnaryOp) and isinstance(y.op, ast.Not) and unparse(y.operand) == va for y in (t.values if isinstance(t, ast.BoolOp) and isinstance(t.op, ast.And) else [])) and pol
+                         for t, pol in g)
+        # refused: an earlier statement of the same block raises when there are conditions
+        par = db.parent(a)
+        refused = False
+        for fld in ("body", "orelse"):
+            blk = getattr(par, fld, None) or []
+            if any(b is a for b in blk):
+                for b in blk[:[k for k, b_ in enumerate(blk) if b_ is a][0]]:
+                    if isinstance(b, ast.If) and any(isinstance(x, ast.Name) and x.id == va for x in ast.walk(b.test)) and any(isinstance(r, ast.Raise) for r in ast.walk(b)):
+                        refused = True
+        ok = uses or none_given or refused
+        out.append(inst("CONDITIONS-NOT-DROPPED", HOLDS if ok else VIOLATION, fn, f"select_one_or_select_many_or_infer[{unparse(a)[:40]}]",
+                        ("the conditions are handed on" if uses else "taken only when no conditions are given" if none_given else "conditions are refused here") if ok else
+                        f"`{unparse(a)[:60]}` builds the quantifier from the first argument alone, whatever `*{va}` holds: conditions written next to a description are dropped "
+                        f"without a word - an(entity(x, x.a == 1), x.b == 0) also yields objects with b != 0", line=a.lineno))
+    if n < 3:
+        raise AnalysisError(f"select_one_or_select_many_or_infer: only {n} cases found")
+    return out
+
+
 # ---------------------------------------------------------------------------------- FAILURE-CTOR-TOTAL
 def rule_failure_ctor_total(db: ProgramDB) -> List[Instance]:
     """`the` reports 'two solutions' / 'no solution' by raising the package's own exception types.  What leaves evaluate() is that
